@@ -131,6 +131,8 @@ def check_events(case):
         active = [False] * len(cbs)
         fired = [False] * len(cbs)
 
+        owners = {}
+
         def make(i, cb):
             def body(event):
                 logs[i].append(ev_tuple(event))
@@ -159,7 +161,9 @@ def check_events(case):
 
                 return functools.partial(fn2, "extra")
             if shape == "method":
-                return type("Listener", (), {"on_event": fn2})().on_event
+                inst = type("Listener", (), {"on_event": fn2})()
+                owners[i] = inst  # removal by callback accesses `inst.on_event` again: an equal, not identical, object
+                return inst.on_event
             if shape == "object" and not cb["coro"]:
                 return type("Listener", (), {"__call__": fn2})()
             return fn
@@ -182,7 +186,7 @@ def check_events(case):
                         plain = cb["device"] is None and cb["vector"] is None and cb["element"] is None and cb["etype"] == "Base"
                         kwargs = dict(device=cb["device"], vector=cb["vector"], element=cb["element"], event_type=etype_class(cb["etype"]))
                         if rm["by"] == "criteria+callback" or plain:
-                            kwargs["callback"] = fns[i]
+                            kwargs["callback"] = owners[i].on_event if owners.get(i) is not None else fns[i]
                             active[i] = False
                         else:
                             # removes every callback whose own filter equals the given criteria (None = any)
@@ -204,7 +208,7 @@ def check_events(case):
                 if wr["at"] % n == pos:
                     probe_log.clear()
                     try:
-                        what = refclient.client_write(client, wr["k"])
+                        what = refclient.client_write(client, wr["k"], submit=wr.get("submit", True))
                     except Exception as e:  # noqa
                         f = lib_exception_failure(e, "client-write")
                         raise Failure(f.sig, f"before message {pos}: {f.msg}")
@@ -328,7 +332,7 @@ callback_st = st.fixed_dictionaries(
 )
 case_st = st.fixed_dictionaries({
     "items": streams.stream(30), "callbacks": st.lists(callback_st, min_size=2, max_size=6),
-    "writes": st.lists(st.fixed_dictionaries({"at": st.integers(0, 40), "k": st.integers(0, 30)}), max_size=3),
+    "writes": st.lists(st.fixed_dictionaries({"at": st.integers(0, 40), "k": st.integers(0, 30), "submit": st.booleans()}), max_size=3),
 })
 
 SUBCHECKS = {"events": check_events}
